@@ -1507,17 +1507,22 @@ fn run_threshold(cx: &mut Ctx, rng: &mut Rng) {
         let _ = rng.next_u64();
     }
     // gvar: short offsets widen to long when the patched data no longer fits 131070 bytes
-    for (glong, ng, base_total, grow) in [
-        (false, 4usize, 131066usize, 2usize),
-        (false, 4, 131066, 4),
-        (false, 4, 131066, 5),
-        (false, 4, 131066, 6),
-        (false, 4, 131070, 1),
-        (false, 4, 131068, 131072),
-        (false, 600, 100, 131100),
-        (false, 4, 0, 131072),
-        (false, 4, 8, 131070),
-        (true, 4, 131070, 9),
+    for (glong, ng, base_total, grows) in [
+        (false, 4usize, 131066usize, vec![2usize]),
+        (false, 4, 131066, vec![4]),
+        (false, 4, 131066, vec![5]),
+        (false, 4, 131066, vec![6]),
+        (false, 4, 131070, vec![1]),
+        (false, 4, 131068, vec![1]),
+        (false, 4, 131066, vec![1, 1, 1]),
+        (false, 4, 131068, vec![1, 1]),
+        (false, 4, 131064, vec![3, 1, 1]),
+        (false, 4, 131066, vec![1, 1]),
+        (false, 4, 131068, vec![131072]),
+        (false, 600, 100, vec![131100]),
+        (false, 4, 0, vec![131072]),
+        (false, 4, 8, vec![131070]),
+        (true, 4, 131070, vec![9]),
     ] {
         let mut glyphs: Vec<Vec<u8>> = vec![vec![]; ng];
         glyphs[ng - 1] = vec![0xAB; base_total];
@@ -1527,17 +1532,23 @@ fn run_threshold(cx: &mut Ctx, rng: &mut Rng) {
         let (ift, entries) = ift_table(0, compat(1), 3, "foo", &[None]);
         tables.insert(IFT, ift);
         let base = build_font(&FontSpec { tables });
-        let c = GkContent { tables: vec![GVAR], gids: vec![1], data: vec![vec![(0..grow).map(|i| 0x40 + (i % 64) as u8).collect()]], wide: false };
+        let c = GkContent {
+            tables: vec![GVAR],
+            gids: (0..grows.len() as u32).collect(),
+            data: vec![grows.iter().map(|g| (0..*g).map(|i| 0x40 + (i % 64) as u8).collect()).collect()],
+            wide: false,
+        };
         let st: St = [(entries[0].uri.clone(), Some(patch_for(&entries[0], &c)))].into_iter().collect();
         let Some(out) = run_call(&base, &entries, &st, None, 0) else { continue };
         cx.st.evaluations += 1;
         cx.st.count("threshold.gvar");
-        let term = format!("gvar-threshold long={} glyphs={} base={} grow={}", glong, ng, base_total, grow);
+        let term = format!("gvar-threshold long={} glyphs={} base={} grow={:?}", glong, ng, base_total, grows);
         oracle_bookkeeping(cx, &st, &out, "threshold.gvar", &term);
         oracle_glyph_keyed(cx, &base, &out, &[(entries[0].clone(), c)], Some(true), "threshold.gvar", &term);
         if let Ok(f) = &out.res {
             let widened = font_tables(f).map(tabmap).and_then(|t| offset_array(&t, GVAR)).map(|a| !a.short).unwrap_or(false);
-            let need = !glong && base_total + grow + grow % 2 > 131070;
+            let padded: usize = grows.iter().map(|g| g + g % 2).sum();
+            let need = !glong && base_total + padded > 131070;
             if widened != (glong || need) {
                 fail(cx, "gvar-widening-wrong", "threshold.gvar", &term, json!({"widened": widened}));
             }
